@@ -213,6 +213,10 @@ def r3_determinism(ctx, rule="C01.R3"):
                            "every entry is updated independently through its own reference; nothing else is "
                            "computed in the loop")
                     continue
+                if consumer == "for_each" and name in ("values_mut", "iter_mut") and _in_place_update_chain(prog, fn, b):
+                    ctx.ok(rule, key, "%s:%s" % (fn.file, t.get("ln")),
+                           "every entry is updated independently through its own reference by closures that call nothing")
+                    continue
                 if consumer in ORDER_INSENSITIVE:
                     ctx.ok(rule, key, "%s:%s" % (fn.file, t.get("ln")), "consumed by order-insensitive `%s`" % consumer)
                 elif (owner.path if owner else fn.path) in allowed:
@@ -254,6 +258,32 @@ def _in_place_update_loop(fn, t):
                 if not base_ty.startswith("&"):
                     continue
     return True
+
+
+def _in_place_update_chain(prog, fn, iter_block):
+    """`map.values_mut().filter(|v| ..).for_each(|v| *v -= 1)`: every closure handed to the adaptors of the
+    chain calls nothing (it can only compute on, and store through, its own item)"""
+    body = fn.body
+    pv = mir.Prov(body)
+    seen_for_each = False
+    for _b, t in body.calls():
+        nm = mir.callee_path(t).split("::")[-1]
+        if nm not in ("filter", "for_each", "map", "filter_map", "inspect") or len(t["args"]) < 2:
+            continue
+        recv = pv.of_operand(t["args"][0])
+        if not mir.origin_mentions(recv, lambda z: z[0] == "call" and len(z) > 3 and z[3] == iter_block):
+            continue
+        so = mir.strip_all(pv.of_operand(t["args"][1]))
+        if not (so[0] == "agg" and so[1] == "closure"):
+            return False
+        c = prog.fns.get(so[2])
+        if c is None or c.body is None:
+            return False
+        if any(not c.body.is_cleanup(cb) for cb, _t in c.body.calls()):
+            return False
+        if nm == "for_each":
+            seen_for_each = True
+    return seen_for_each
 
 
 def _returns_local(fn, local):
